@@ -29,7 +29,7 @@ BUDGET = {'quick': 110, 'thorough': 1500}
 TIMEOUT = 240
 SHRINK_LISTS = [['ops']]
 EXPECTED_PROBES = ['slots_checked', 'reads_checked', 'ext_links_checked', 'second_phase', 'after_reset', 'after_snapshot',
-                   'string_indices', 'interleaved_order']
+                   'string_indices', 'interleaved_order', 'collated_models']
 RULE = ('plan = (stock case, add order, per-group index typing, lifecycle op list); non-trivial = the checker ran after dynamic '
         'initialisation (both addressing phases); distinct = (case, order, set of re-typed groups, op list)')
 ASSUMPTIONS = [
@@ -54,6 +54,9 @@ def plans(seed, tier, count):
             continue
         out.append({'property': PROP, 'seed': core.H('fix10', i), 'case': c, 'order': 'file', 'modes': 'keep',
                     'ops': ['setup', 'pflow', 'tds_init']})
+    for j, c in enumerate(['kundur/kundur_full.xlsx', 'ieee14/ieee14_wt3.xlsx']):
+        out.insert(j, {'property': PROP, 'seed': core.H('fix10c', j), 'case': c, 'order': 'file', 'modes': 'keep',
+                       'ops': ['setup', 'pflow', 'tds_init', 'steps'], 'collate': 0.6})
     i = 0
     while len(out) < count:
         out.append({'stub': True, 'seed': core.H(seed, PROP, i), 'tier': tier})
@@ -75,7 +78,9 @@ def elaborate(stub):
         ops += ['steps']
     if o.random() < (0.12 if stub.get('tier') != 'thorough' else 0.3):
         ops += ['snapshot']
-    return {'property': PROP, 'seed': seed, 'case': case, 'order': r.choice(ORDERS), 'modes': 'seeded', 'ops': ops}
+    cl = stream(seed, 'collate')
+    return {'property': PROP, 'seed': seed, 'case': case, 'order': r.choice(ORDERS), 'modes': 'seeded', 'ops': ops,
+            'collate': round(cl.random(), 3) if cl.random() < 0.3 else 0}
 
 
 def execute(plan):
@@ -94,6 +99,14 @@ def execute(plan):
     probes['string_indices'] = int(any(m == 'str' for m in modes.values()))
     probes['interleaved_order'] = int(plan['order'] == 'interleave')
     ss = rebuild.build(rows3)
+    # storage layout: variables collated by device instead of by variable for a seeded subset of the models (ModelFlags.collate);
+    # Bus is excluded (the connectivity check documents contiguous bus addresses)
+    if plan.get('collate'):
+        cr = stream(plan['seed'], 'collate-models')
+        for name, mdl in ss.models.items():
+            if mdl.n >= 2 and name != 'Bus' and cr.random() < plan['collate']:
+                mdl.flags.collate = True
+                probes['collated_models'] = probes.get('collated_models', 0) + 1
     ops_done = []
     try:
         for op in plan['ops']:
